@@ -153,6 +153,7 @@ func checkC20(c *Ctx) {
 		nFields++
 		if g.Guard == "" && publishByClose(c, g) {
 			c.R.Hold("R-exception", g.Field, c.Pos(g.Accesses[0].Pos), publishByCloseReason)
+			c20FlagAfterPublish(c, g)
 			continue
 		}
 		if g.Guard == "" {
@@ -200,6 +201,7 @@ func checkC20(c *Ctx) {
 	c20LongLivedPlain(c, accs)
 	c20WriterJoined(c)
 	timerCallbacksDoNotWrite(c, "R-timer-writes")
+	c09PublishAfterHeader(c, "R-publish-after-header") // the handler and the senders it has just admitted write one ResponseWriter
 	c20PackageState(c)
 	c20FanoutWrite(c)
 	c20ClosureState(c)
